@@ -9,6 +9,115 @@ type alphabet []string
 // slashes, ':', the Match metacharacters and a non-ASCII rune.
 var sigma = alphabet{"a", "B", ".", "/", "\\", ":", "?", "*", "[", "]", "-", "^", "é"}
 
+// sigmaEdge is the alphabet of the range-edge phases.
+//
+// Lesson (C13-r5m2): code that tests a character against a range
+// ('a' <= c && c <= 'z') is wrong first at the two ends of the range, and
+// sigma holds one inner letter per case only. The only ranges the lexical
+// layer tests are the two drive-letter ranges (VolumeNameLen; toUpper of the
+// case-blind prefix test) — no digit is ever tested — so the alphabet holds
+// both ends of both ranges (a z A Z), the four characters just outside them
+// (` { @ [), and what it takes to put them in the place of a drive letter,
+// of a UNC host or share and of a plain element (: both slashes and the dot).
+var sigmaEdge = alphabet{"a", "z", "A", "Z", "`", "{", "@", "[", ":", "\\", "/", "."}
+
+// sigmaEdgePairs is the part of sigmaEdge used for the pairs of the quick
+// tier (Join/2, Rel: drive letters of both arguments, compared case-blind):
+// both ends of both ranges, the neighbour above the lower-case and the one
+// below the upper-case range, colon, backslash, dot. The thorough tier takes
+// all of sigmaEdge.
+var sigmaEdgePairs = alphabet{"a", "z", "A", "Z", "{", "@", ":", "\\", "."}
+
+// Elements instead of characters.
+//
+// Lesson (C13-r5m1): the Windows lexical functions treat some whole ELEMENTS
+// specially — `??` after a lone separator (Root Local Device: Join inserts
+// `.\`, Clean's post-processing `\.`), `.` and `?` after two separators
+// (device paths), `..`, a first element with a colon (Clean inserts `.\`) —
+// and Join strips the leading separators of an element before or after
+// looking at it. Strings of <= 3 characters over sigma hold at most one such
+// element and never one behind two separators; so paths and Join arguments
+// are also enumerated as sequences of words.
+//
+// joinElements: every (leading separators) + word + (tail) — the arguments of
+// the join-elems phase (all triples).
+func joinElements(thorough bool) []string {
+	lead := []string{"", `\`, "/", `\\`}
+	words := []string{"", "a", ".", "..", "?", "??", "???", "??a", "C:"}
+	tail := []string{"", `\`, `\a`}
+
+	if thorough {
+		lead = append(lead, `//`)
+		// "UNC": `\\.\UNC\` and `\\?\UNC\` are prefixes of the toolchain's volume
+		// parser. avfs does not take `\\.\UNC\h\s` for a volume — the defect of
+		// KF-C13-002, whose pattern lists that volume-cause shape too.
+		words = append(words, "z:", "UNC")
+		tail = append(tail, "/", `\..`)
+	}
+
+	var out []string
+
+	seen := map[string]bool{}
+
+	for _, l := range lead {
+		for _, w := range words {
+			for _, t := range tail {
+				if e := l + w + t; !seen[e] {
+					seen[e] = true
+
+					out = append(out, e)
+				}
+			}
+		}
+	}
+
+	return out
+}
+
+// pathWords / pathPrefixes: the elem-paths phase evaluates the one-argument
+// functions on prefix + w1 s1 w2 ... wk (k <= 4 quick, 5 thorough), every wi a
+// word, every si one of the two slashes.
+var (
+	pathWords    = alphabet{"", "a", ".", "..", "?", "??", "C:"}
+	pathPrefixes = []string{"", `\`, "/", `C:`, `C:\`, `\\`, `\\h\s`, `\\h\s\`, `\\.\`, `\??\`}
+)
+
+// eachWordPath calls fn for every w1 s1 w2 ... wk over pathWords and the two
+// slashes, in a fixed order (words as big-endian digits, then separators as
+// the bits of a counter).
+func eachWordPath(k int, fn func(s string)) {
+	if k == 0 {
+		return
+	}
+
+	seps := [2]string{`\`, "/"}
+	n := pathWords.count(k)
+	digits := make([]int, k)
+
+	var buf []byte
+
+	for i := 0; i < n; i++ {
+		for j, idx := k-1, i; j >= 0; j-- {
+			digits[j] = idx % len(pathWords)
+			idx /= len(pathWords)
+		}
+
+		for m := 0; m < 1<<(k-1); m++ {
+			buf = buf[:0]
+
+			for j, d := range digits {
+				if j > 0 {
+					buf = append(buf, seps[m>>(j-1)&1]...)
+				}
+
+				buf = append(buf, pathWords[d]...)
+			}
+
+			fn(string(buf))
+		}
+	}
+}
+
 // count returns the number of strings with exactly l symbols.
 func (a alphabet) count(l int) int {
 	n := 1
